@@ -246,6 +246,10 @@ impl<T: RealNumber + Sum> KMeans<T> {
         let (n, m) = data.shape();
         let mut y = vec![0; n];
         let mut centroid = data.get_row_as_vec(rng.gen_range(0..n));
+        #[cfg(feature = "verif-hooks")]
+        if let Some(i) = crate::verif_hooks::choose(crate::verif_hooks::Draw::KMeansFirst, n) {
+            centroid = data.get_row_as_vec(i);
+        }
 
         let mut d = vec![T::max_value(); n];
 
@@ -267,6 +271,11 @@ impl<T: RealNumber + Sum> KMeans<T> {
                 sum += *i;
             }
             let cutoff = T::from(rng.gen::<f64>()).unwrap() * sum;
+            #[cfg(feature = "verif-hooks")]
+            let cutoff = match crate::verif_hooks::unit_draw(crate::verif_hooks::Draw::KMeansCutoff) {
+                Some(u) => T::from(u).unwrap() * sum,
+                None => cutoff,
+            };
             let mut cost = T::zero();
             let mut index = 0;
             while index < n {
